@@ -7,7 +7,8 @@ SYNTH = ["linear", "neighbors", "kernel", "mlp"]
 
 def gen_env_group(rng, gi):
     kind = rng.choice(SYNTH + ["linear", "supervised", "lambda", "lambda-sparse"])
-    g = {"kind": kind, "n": rng.choice([4, 6, 9, 12]), "seed": rng.randrange(1, 50), "tag": f"g{gi}", "filters": []}
+    # (sizes on both sides of 25: Cache fills itself 25 interactions at a time)
+    g = {"kind": kind, "n": rng.choice([4, 6, 9, 12, 12, 30, 55]), "seed": rng.randrange(1, 50), "tag": f"g{gi}", "filters": []}
     if kind in SYNTH:
         g.update(na=rng.choice([2, 3, 4]), ncf=rng.choice([1, 2, 3]), naf=rng.choice([0, 2]) if kind != "neighbors" else 0)
     if kind == "supervised":
@@ -22,7 +23,7 @@ def gen_env_group(rng, gi):
     if rng.random() < .3: fs.append(["take", rng.choice([3, 5, 8])])
     if rng.random() < .15: fs.append(["scale"])
     if rng.random() < .15: fs.append(["noise", rng.randrange(1, 9)])
-    if rng.random() < .1: fs.append(["sleepy", rng.choice([5, 20]), rng.randrange(100)])
+    if rng.random() < .1: fs.append(["sleepy", rng.choice([5, 20]), rng.randrange(100)]); g["n"] = min(g["n"], 12)
     r = rng.random()
     if r < .08:   fs.append(["riffle", rng.choice([2, 3]), rng.randrange(1, 9)])
     elif r < .16: fs.append(["reservoir", rng.choice([3, 5]), rng.randrange(1, 9)])
@@ -30,7 +31,9 @@ def gen_env_group(rng, gi):
     elif r < .28: fs.append(["slice", rng.choice([0, 1]), rng.choice([None, 6]), rng.choice([1, 2])])
     elif r < .33: fs.append(["binary"])
     elif r < .38: fs.append(["where", rng.choice([1, 3])])
-    if kind == "lambda-sparse" and rng.random() < .7: fs.insert(0, ["dense", rng.choice([6, 8]), "lookup"])   # a stateful name->column table
+    if kind == "lambda-sparse":
+        fs[:] = [f for f in fs if f[0] != "scale"]               # (coba refuses a shift on sparse contexts: not a valid pipeline)
+        if rng.random() < .7: fs.insert(0, ["dense", rng.choice([6, 8]), "lookup"])   # a stateful name->column table
     if rng.random() < .2: fs.append(["logged", rng.randrange(1, 9)])
     if rng.random() < .12: fs.append(["batch", rng.choice([2, 3])])
     elif rng.random() < .1: fs.append(["materialize"])           # interactions (and their reward objects) exist before the work is shipped
